@@ -1,9 +1,11 @@
 """C05 - SQL-backed service survives a crash at any point without losing or tearing data."""
 import collections
+import json
 import concurrent.futures as cf
 import multiprocessing
 import os
 import random
+import re
 import shutil
 
 import verif_boot  # noqa: F401
@@ -101,15 +103,29 @@ def _scenario(job):
       if any(raw.values()):
         out['problems'].append({'point': k, 'label': labels[-1], 'what': 'raw-table-scan', 'detail': raw})
       where = [i for i, b in enumerate(chain) if b == got]
-      if not where:
+      if not where and call['rpc'] != 'SuggestTrials':
         out['problems'].append({'point': k, 'label': labels[-1], 'what': 'torn-state', 'observed': got})
         continue
-      i = where[-1] if labels[-1].startswith('return:') else where[0]
+      if not where:
+        # not a state of the chain (the order in which today's code commits): judged by TLC afterwards
+        # (VizierCrash.PartialSuggest: SOME partial application of the call); recovery is probed here without a model answer
+        out['problems'].append({'point': k, 'label': labels[-1], 'what': 'torn-candidate', 'observed': got, 'pre': chain[0]})
+        i = None
+      else:
+        i = where[-1] if labels[-1].startswith('return:') else where[0]
       # ---- recovery probes: a worker suggests one trial and completes it (same and other worker)
       for wk in conf['Clients']:
-        exp = rec['probes'][i][wk] if isinstance(rec['probes'][i], dict) else rec['probes'][i]
-        if exp['suggest']['err'] == 'n/a':
-          continue
+        if i is None:
+          sx = call['s']
+          stx = got['study'][sx]
+          ids = [n + 1 for n, t in enumerate(got['trial'][sx]) if 'absent' not in t]
+          if 'absent' in stx or stx['state'] in ('INACTIVE', 'COMPLETED') or (max(ids) if ids else 0) >= conf['MaxId']:
+            continue
+          exp = None
+        else:
+          exp = rec['probes'][i][wk] if isinstance(rec['probes'][i], dict) else rec['probes'][i]
+          if exp['suggest']['err'] == 'n/a':
+            continue
         img2 = os.path.join(d, 'probe%d_%s.db' % (k, wk))
         shutil.copy(inj.image, img2)
         svc3 = world.make_servicer('sqlite:///' + img2, conf['Recycle'])
@@ -123,7 +139,7 @@ def _scenario(job):
           r2 = w3.run({'rpc': 'CompleteTrial', 's': s, 't': r1['val']['op']['trials'][0], 'f': 'm1', 'inf': False, 'reason': ''})
           r2.pop('exc', None)
           usable = r2['err'] == 'None'
-        if r1 != exp['suggest'] or (r2['err'] != exp['complete']['err']):
+        if exp is not None and (not same_probe(r1, exp['suggest']) or (r2['err'] != exp['complete']['err'])):
           out['problems'].append({'point': k, 'label': labels[-1], 'what': 'recovery-differs-from-model', 'worker': wk,
                                   'expected': exp, 'observed': {'suggest': r1, 'complete': r2}})
         elif not usable:
@@ -141,6 +157,37 @@ def _scenario(job):
   finally:
     shutil.rmtree(d, ignore_errors=True)
   return out
+
+
+def same_probe(got, exp):
+  """The recovery probe's answer up to what C02 leaves open (WHICH queued trial is handed out): same error class, same
+  operation status, same number of trials."""
+  if got['err'] != exp['err']:
+    return False
+  if got['err'] != 'None':
+    return True
+  g, e = got['val']['op'], exp['val']['op']
+  return g['done'] == e['done'] and g['err'] == e['err'] and len(g['trials']) == len(e['trials'])
+
+
+PV = re.compile(r'<<"PV", (\d+), "(\w+)">>')
+
+
+def judge_partial(candidates, conf, workdir, name):
+  """Crash images of SuggestTrials that are not in the model's chain: TLC decides whether each is SOME partial application."""
+  obs = [{'pre': p['pre'], 'call': rec['hist'][-1], 'got': p['observed']} for rec, p in candidates]
+  path = os.path.join(workdir, 'partial_%s.json' % name)
+  with open(path, 'w') as f:
+    json.dump(obs, f)
+  cfg = os.path.join(workdir, 'partial_%s.cfg' % name)
+  consts = dict(speca.constants(), Studies=set(conf['Studies']), Clients=set(conf['Clients']), MaxId=conf['MaxId'], Cells=set(conf['Cells']),
+                Recycle=conf['Recycle'])
+  tlc.write_cfg(cfg, spec='JSpec', constants=consts)
+  res = tlc.must_ok(tlc.run_tlc('VizierCrash', cfg, workdir, workers=1, env={'TRACE_FILE': path}, timeout=1800), 'VizierCrash/judge')
+  v = {int(m.group(1)): m.group(2) for m in PV.finditer(res.out)}
+  if len(v) != len(obs):
+    raise tlc.MachineryError('VizierCrash judge incomplete: %d of %d\n%s' % (len(v), len(obs), res.out[-1500:]))
+  return [v[k + 1] for k in range(len(obs))]
 
 
 def run(ctx, only=None):
@@ -163,6 +210,7 @@ def run(ctx, only=None):
       chosen = [(i, r) for i, r in enumerate(recs) if len(r['chain']) > 2 and rng.random() < (max(frac, 0.5) if ctx.thorough else frac)] + \
                [(i, r) for i, r in enumerate(recs) if len(r['chain']) == 2 and rng.random() < frac] + \
                [(i, r) for i, r in enumerate(recs) if len(r['chain']) == 1 and rng.random() < frac / 4]
+      candidates = []
       entry = {'name': name, 'scenarios_in_model': len(recs), 'scenarios_crashed': len(chosen), 'crash_points': 0,
                'model_PostCrashUsable_violated': model_unusable, 'problems': collections.Counter()}
       with cf.ProcessPoolExecutor(max_workers=16, mp_context=multiprocessing.get_context('fork'), initializer=_init, initargs=(conf, d)) as ex:
@@ -172,6 +220,9 @@ def run(ctx, only=None):
           crash_points += out['points']
           distinct.add(replay_mod.canon(rec['hist']))
           for p in out['problems']:
+            if p['what'] == 'torn-candidate':
+              candidates.append((rec, p))
+              continue
             entry['problems'][p['what']] += 1
             last = rec['hist'][-1]
             sig = {'via': 'crash', 'rpc': last['rpc'], 'what': p['what']}
@@ -181,6 +232,16 @@ def run(ctx, only=None):
                               'suggest-error:' + sg['err'] if sg['err'] != 'None' else 'other')
             ctx.violation(sig, {'kind': 'crash', 'conf': conf, 'hist': rec['hist'], 'point': p['point'], 'label': p['label'], 'problem': p,
                                 'chain_length': len(rec['chain'])})
+      if candidates:
+        verdicts = judge_partial(candidates, conf, d, name)
+        for (rec, p), v in zip(candidates, verdicts):
+          if v == 'partial_ok':
+            entry['partial_applications_in_another_order'] = entry.get('partial_applications_in_another_order', 0) + 1
+          else:
+            entry['problems']['torn-state'] += 1
+            ctx.violation({'via': 'crash', 'rpc': rec['hist'][-1]['rpc'], 'what': 'torn-state'},
+                          {'kind': 'crash', 'conf': conf, 'hist': rec['hist'], 'point': p['point'], 'label': p['label'],
+                           'problem': {k2: v2 for k2, v2 in p.items() if k2 != 'pre'}, 'chain_length': len(rec['chain'])})
       entry['problems'] = dict(entry['problems'])
       cov['configs'].append(entry)
       ctx.log('  crashed %d scenarios at %d points; problems: %s' % (len(chosen), entry['crash_points'], entry['problems']))
